@@ -165,6 +165,7 @@ ADD8 = {
  "C14": _CTX8 + " FRONTEND-ANSWER: an API call of the client front end reports success only from the select arm that received this call's answer; the abandoning (timeout) arm reports an error.",
 }
 ADD9 = {
+ "C18": " Round 9: CLK-MONOTONE - every assignment to a tla.VClock field of the runtime extends the field (Merge / Inc on itself); a clock rolled back on Abort can fall behind a section already logged with it.",
  "C02": " Round 9: one more normal form for the comparison, used when the plain ones disagree: operands of =, #, +, *, \\cup, \\cap and members of set literals in lexical order, `IF (a # b)` read as the negation of `IF (a = b)`.",
  "C07": " Round 9: HASHMAP-KEYS (the shared variables of one IncMap are committed / released through the key list).",
  "C11": " Round 9: TPC-STALE - the receiver skips only a message strictly older than the last one it processed from that sender.",
